@@ -469,6 +469,9 @@ def parent_main(pid, tier, replay=None):
                     line = "KNOWN-FINDING: property=%s %s: %s" % (pid, w["id"], e["what_fails"])
                     if line not in known_lines:
                         known_lines.append(line)
+                else:
+                    # not a verdict: a listed open finding whose witness passes is stale bookkeeping (stderr only)
+                    sys.stderr.write("NOTE: witness of open finding %s (%s) no longer fails - entry is stale\n" % (w["id"], pid))
             elif w["status"] == "fixed" and w["failures"]:
                 violations.append({"layer": "regression:" + w["id"], "case": w["witness"], "failures": w["failures"]})
         for line in known_lines:
